@@ -893,6 +893,26 @@ template <class K, class Cmp> struct FlatMirror : MirrorBase
         }
         else if (op == "mcopy")
             exp = "10";
+        else if (op == "miter")
+        {
+            exp = "";
+            for (auto &kv : mm)
+                exp += (exp.empty() ? "" : ",") + std::to_string(unbox(kv.first)) + ">" + std::to_string(kv.second);
+            if (exp.empty())
+                exp = "-";
+            o.tag(mm.size() >= 3 ? "map-iter-3+" : "map-iter");
+        }
+        else if (op == "meq")
+        { // two std::maps with the same entries are equal whatever the insertion order
+            exp = "10";
+            o.tag(mm.size() >= 2 ? "map-eq-2+" : "map-eq");
+        }
+        else if (op == "mcget")
+        {
+            auto it = mm.find(I(1));
+            exp = it == mm.end() ? "0" : std::to_string(it->second);
+            o.tag(it == mm.end() ? "cget-absent" : "cget-present");
+        }
         else if (op == "sins")
             o.tag(ms.insert(I(1)).second ? "set-new" : "set-dup");
         else if (op == "scount")
@@ -1281,8 +1301,11 @@ struct Gen
         for (int i = 0; i < len; i++)
         {
             int k = (int)R.range(0, keys) - off, v = (int)R.range(0, 99);
-            switch (R.below(17))
+            switch (R.below(20))
             {
+            case 17: emit("miter"); break;
+            case 18: emit(R.chance(40) ? "meq" : "mcget " + S(k)); break;
+            case 19: emit(R.chance(50) ? "miter" : "mcget " + S(k)); break;
             case 13: emit(R.chance(50) ? "msize" : "ssize"); break;
             case 14: emit("siter"); break;
             case 15: emit("sins " + S(k)); break;
@@ -1343,6 +1366,10 @@ struct Gen
                     }
                     emit("mset 1 5");
                     emit("mcount 1");
+                    emit("miter");
+                    emit("meq");
+                    emit("mcget 1");
+                    emit("mcget 7");
                 }
     }
     // every insertion order of up to 4 distinct keys (set + map insert)
@@ -1359,6 +1386,17 @@ struct Gen
             }
             emit("sins " + S(p[1]));
             emit("mins " + S(p[2]) + " 77");
+            emit("miter");
+            // the same four keys through the other insertion paths (operator[] write / read, emplace), then one more
+            // through insert: every path must keep the storage in key order
+            emit("mclear");
+            emit("mset " + S(p[0]) + " 1");
+            emit("mempl " + S(p[1]) + " 2");
+            emit("mget " + S(p[2]));
+            emit("mins " + S(p[3]) + " 4");
+            emit("mins " + S(p[0] + 4) + " 5");
+            emit("miter");
+            emit("meq");
             if (!cmp.empty())
             {
                 // keys that are equivalent to a stored one under the by-last-digit order, new ones under the others
